@@ -409,6 +409,10 @@ def predicate(ops, out):
         pre, conns = wire.parse_line(line)
         if "HANG" in line:
             return f"broker did not become quiescent after `{op}`"
+        if "UNLOCKED-SAVE" in line.split():
+            return (f"`{op}`: the password file was written while the plugin's lock was NOT held — the save is then not part of the "
+                    "critical section that changed the account index: two overlapping account requests can write their snapshots "
+                    "in the opposite order, and a restarted broker loads the older one")
         if "panic" in pre:
             return f"`{op}` panicked in the code under test"
         if f[0] == "new":
